@@ -194,6 +194,18 @@ theorem C05_run_model_exact (f : Nat) (i i' : Inst) (es : List Entry) (h : runMo
   obtain ⟨k, h1, h2, h3⟩ := runModel_spec f i i' es h
   exact ⟨k, h1, h2, h3, by rw [h1, stepN_steps]⟩
 
+/-- `run_model` is nothing but `k` ordinary `step()` calls made one after the other: the final state is that of `k` calls, the
+    records it leaves are the records of those `k` calls in order (the j-th call's bodies see `steps + j`), `running` was true
+    before each call and is false after the last, and the counter advanced by exactly `k`. -/
+theorem C05_run_model_is_k_step_calls (f : Nat) (i i' : Inst) (es : List Entry) (h : runModel f i = some (i', es)) :
+    ∃ k, i' = stepN k i ∧ es = entriesN k i ∧ i'.running = false ∧ (∀ j, j < k → (stepN j i).running = true) ∧
+      i'.steps = i.steps + k ∧ ∀ e ∈ es, i.steps + 1 ≤ e.steps ∧ e.steps ≤ i.steps + k := by
+  obtain ⟨k, h1, h1e, h2, h3⟩ := runModel_entries f i i' es h
+  exact ⟨k, h1, h1e, h2, h3, by rw [h1, stepN_steps], by rw [h1e]; exact entriesN_steps k i⟩
+
+example : runModel 10 (Inst.new [⟨true, false, false⟩] 3) =
+    some (stepN 3 (Inst.new [⟨true, false, false⟩] 3), [⟨0, 1, []⟩, ⟨0, 2, []⟩, ⟨0, 3, []⟩]) := by decide
+
 /-- …and it does return whenever some level's step body takes part in the stop rule. -/
 theorem C05_run_model_terminates (i : Inst) (h : ∃ L ∈ i.hier, L.overrides = true) :
     ∃ f, (runModel f i).isSome = true := by
